@@ -295,7 +295,29 @@ def r20_4(run):
     run.ob('R20.4', ts, ts.node, 'ADDRMAP events are fed to the map unchanged', ok, slot='fed', message='_addr_map does not pass the event to addrmap.update')
 
 
+def r20_5(run):
+    """Addr.update() may drop the mapping on the spot (an <error> or already expired mapping calls _expire, which removes its
+    keys).  A store into the map that runs *after* it files the dropped mapping again: on every path of AddrMap.update all
+    stores of the mapping precede the call of its update()."""
+    am = run.idx.cls('AddrMap', 'addrmap')
+    up = run.idx.find_method(am, 'update')
+    if up is None:
+        raise AnchorVanished('AddrMap.update')
+    g = cfg_of(up)
+    upd = g.nodes_where(lambda n: any(isinstance(a, ast.Call) and callee_attr(a) == 'update' and isinstance(receiver(a), ast.Name) for a in node_asts(n)))
+    stores = g.nodes_where(lambda n: n.kind == 'stmt' and isinstance(n.ast, ast.Assign) and any(isinstance(t, ast.Subscript) and dotted(t.value) == 'self.addr' for t in n.ast.targets))
+    run.floor('R20.5', 'calls of Addr.update in AddrMap.update', len(upd), 2)
+    run.floor('R20.5', 'stores into the map', len(stores), 3)
+    for un in upd:
+        after = g.reachable([s_ for lab, s_ in un.succ if lab != 'exc'], follow_exc=False)
+        late = [s_ for s_ in stores if s_ in after]
+        run.ob('R20.5', up, un.ast, 'nothing is stored in the map after the mapping has been updated (it may have been dropped)', not late, slot='store-after-update',
+               message='AddrMap.update stores %s after calling the mapping\'s update(): an <error> / expired mapping that update() has just removed is filed again and '
+                       'is returned by find() for good' % (src(late[0].ast)[:40] if late else ''))
+
+
 RULES = [
+    ('R20.5', 'ordering: every store of a mapping precedes the call that may expire it synchronously', r20_5),
     ('R20.1', 'local type inference: every timedelta used as a delay is read through total_seconds() (never .seconds alone)', r20_1),
     ('R20.2', 'insert/remove key agreement: stored under name and address, removed under both, address key kept in step on updates', r20_2),
     ('R20.3', 'timer discipline by path enumeration over (pending timer, new mapping kind): exactly one timer for a timed mapping, none after NEVER/error', r20_3),
@@ -305,6 +327,7 @@ RULES = [
 from ..selftest import M  # noqa: E402
 F = 'txtorcon/addrmap.py'
 MUTANTS = [
+    M('rekey-after-update', F, "            self.addr[params[1]] = a\n            a.update(*params)\n\n        else:", "            a.update(*params)\n            self.addr[params[1]] = a\n\n        else:", ['R20.5']),
     M('seconds-again', F, "self.expiry.delay(diff.total_seconds())", "self.expiry.delay(diff.seconds)", ['R20.1']),
     M('calllater-seconds', F, "callLater(diff.total_seconds(),", "callLater(diff.seconds,", ['R20.1']),
     M('expire-name-only', F, "        for k in [k for (k, v) in self.map.addr.items() if v is self]:\n            del self.map.addr[k]", "        del self.map.addr[self.name]", ['R20.2']),
